@@ -76,6 +76,10 @@ class Ctx(object):
                 return
             text = '%s [shared with %s: %s]' % (text, rid, self._alias_why)
             rid = self._alias[rid]
+        if rid in self.rules:
+            # a clause that is decided by a shared helper rule is added to an already declared rule: keep its text/minimum
+            self.rules[rid]['text'] += ' Clause decided by a shared rule: ' + text
+            return
         self.rules[rid] = {'text': text, 'min': minimum, 'star': star, 'count': 0}
 
     def touch(self, fn):
